@@ -36,6 +36,7 @@ import (
 	"encoding/json"
 	"fmt"
 	"io"
+	"net"
 	"os"
 	"runtime"
 	"runtime/debug"
@@ -60,13 +61,19 @@ import (
 
 const (
 	c25P    = "C25"
-	c25MaxK = 3
+	c25MaxK = 3 // RPCs on connection 1 are numbered 1..3
+	c25NK   = 4 // RPC 4 is the one RPC of connection 2
 )
 
 var c25Events = []string{"arrive", "ret1", "ret2", "ret3", "gs", "stop", "close", "cancel1", "cancel2", "cancel3"}
 
 // status handler k returns when the explorer releases it
-var c25Code = [c25MaxK + 1]codes.Code{0, codes.OK, codes.NotFound, codes.OK}
+var c25Code = [c25NK + 1]codes.Code{0, codes.OK, codes.NotFound, codes.OK, codes.AlreadyExists}
+
+// events of the second scenario family: a second connection whose HTTP/2
+// handshake is split (dial2: accepted by the listener, nothing sent yet;
+// preface2: client preface+SETTINGS; arrive2: RPC 4 on it)
+var c25Events2 = []string{"arrive", "ret1", "gs", "stop", "close", "cancel1", "dial2", "preface2", "arrive2", "ret4"}
 
 // ---------------------------------------------------------------- explorer-owned handlers
 
@@ -78,7 +85,7 @@ type c25Rec struct {
 	cancelSeen map[int]bool
 	startedCtx map[int]bool // context already cancelled when the handler started
 	returned   map[int]string
-	rel        [c25MaxK + 1]chan codes.Code
+	rel        [c25NK + 1]chan codes.Code
 	linger     chan struct{}
 	lingerOff  bool
 }
@@ -107,14 +114,20 @@ func (rc *c25Rec) handle(ctx context.Context) error {
 			k, _ = strconv.Atoi(v[0])
 		}
 	}
-	if k < 1 || k > c25MaxK {
+	if k < 1 || k > c25NK {
 		k = 0
 	}
 	rc.mu.Lock()
 	rc.starts = append(rc.starts, k)
 	rc.running[k] = true
-	if len(rc.running) > rc.maxRunning {
-		rc.maxRunning = len(rc.running)
+	n1 := 0 // handlers of connection 1 (RPC 4 lives on connection 2; the limit is per connection)
+	for j := range rc.running {
+		if j <= c25MaxK {
+			n1++
+		}
+	}
+	if n1 > rc.maxRunning {
+		rc.maxRunning = n1
 	}
 	rc.mu.Unlock()
 	how := ""
@@ -227,6 +240,8 @@ type c25Replay struct {
 	Events []string `json:"events"`
 }
 
+const c25HandshakeTimeout = 120 * time.Second // grpc.Server's default ConnectionTimeout
+
 func c25HistString(mcs int, evs []string) string {
 	m := "unlimited"
 	if mcs > 0 {
@@ -235,7 +250,7 @@ func c25HistString(mcs int, evs []string) string {
 	return "mcs=" + m + ": " + strings.Join(evs, " ")
 }
 
-func c25Run(t *testing.T, mcs int, evs []string, verbose bool) (res c25Res) {
+func c25Run(t *testing.T, mcs int, maxArr int, evs []string, verbose bool) (res c25Res) {
 	res.abortAt = -1
 	synctest.Test(t, func(t *testing.T) {
 		gBase := runtime.NumGoroutine()
@@ -280,23 +295,76 @@ func c25Run(t *testing.T, mcs int, evs []string, verbose bool) (res c25Res) {
 			stopCalled   bool
 			clientClosed bool
 			open         = map[uint32]bool{} // streams open in the client's HTTP/2 state machine
-			sentAfterGS  [c25MaxK + 1]bool
-			sentAfterSt  [c25MaxK + 1]bool
-			accepted     [c25MaxK + 1]bool // the server had to accept it
-			disturbed    [c25MaxK + 1]bool // client cancel / client close / Stop happened while unfinished
-			cancelled    [c25MaxK + 1]bool
-			ended        [c25MaxK + 1]bool   // client saw END_STREAM or RST_STREAM
-			trailer      [c25MaxK + 1]string // grpc-status seen
-			rstSeen      [c25MaxK + 1]bool
-			expect       [c25MaxK + 1]bool // handler returned undisturbed: client must see its status
+			sentAfterGS  [c25NK + 1]bool
+			sentAfterSt  [c25NK + 1]bool
+			accepted     [c25NK + 1]bool // the server had to accept it
+			disturbed    [c25NK + 1]bool // client cancel / client close / Stop happened while unfinished
+			cancelled    [c25NK + 1]bool
+			ended        [c25NK + 1]bool   // client saw END_STREAM or RST_STREAM
+			trailer      [c25NK + 1]string // grpc-status seen
+			rstSeen      [c25NK + 1]bool
+			expect       [c25NK + 1]bool // handler returned undisturbed: client must see its status
 			logPos       int
 			seenStarts   int
 			gsRet        = -1 // running handlers at the instant GracefulStop returned
 			gsRetMu      sync.Mutex
 			stopRet      bool
+			// second connection
+			conn2      net.Conn
+			peer2      *wire.Peer
+			dialed2    bool
+			prefaced2  bool
+			hsTimedOut bool
+			sent4      bool
+			logPos2    int
+			// GracefulStop/Stop called while a connection is still in its HTTP/2
+			// handshake take effect on the other connections only when that
+			// handshake is resolved (Server.stop waits for it before draining /
+			// closing): the obligations "afterwards" are judged from then on.
+			gsEff, stopEff bool
 		)
+		midHS := func() bool { return dialed2 && !prefaced2 && !hsTimedOut }
+		ks := func() []int {
+			var l []int
+			for k := 1; k <= sent; k++ {
+				l = append(l, k)
+			}
+			if sent4 {
+				l = append(l, 4)
+			}
+			return l
+		}
+		// connGone: the connection of RPC k is closed as far as the client knows
+		connGone := func(k int) bool {
+			if k == 4 {
+				return peer2 == nil || peer2.Closed()
+			}
+			return clientClosed || peer.Closed()
+		}
 		finished := func(k int) bool { return ended[k] }
 		settle := func() {
+			if peer2 != nil {
+				lg2 := peer2.Log()
+				for _, f := range lg2[logPos2:] {
+					if f.Stream != 1 {
+						continue
+					}
+					switch f.Type {
+					case "HEADERS":
+						if f.EndStream {
+							ended[4] = true
+							if gs, ok := wire.Field(f.Fields, "grpc-status"); ok {
+								trailer[4] = gs
+							} else {
+								trailer[4] = "missing"
+							}
+						}
+					case "RST_STREAM":
+						ended[4], rstSeen[4] = true, true
+					}
+				}
+				logPos2 = len(lg2)
+			}
 			lg := peer.Log()
 			for _, f := range lg[logPos:] {
 				if f.Stream == 0 || f.Stream%2 == 0 || f.Stream > 2*c25MaxK {
@@ -337,8 +405,14 @@ func c25Run(t *testing.T, mcs int, evs []string, verbose bool) (res c25Res) {
 				}
 			}
 			seenStarts = len(s.starts)
-			if mcs > 0 && (len(s.running) > mcs || s.maxRunning > mcs) {
-				fail(fmt.Sprintf("handlers-over-limit/mcs=%d", mcs), "after %s: %d handlers running now, peak %d, on one connection with MaxConcurrentStreams=%d", after, len(s.running), s.maxRunning, mcs)
+			run1 := 0
+			for _, k := range s.running {
+				if k <= c25MaxK {
+					run1++
+				}
+			}
+			if mcs > 0 && (run1 > mcs || s.maxRunning > mcs) {
+				fail(fmt.Sprintf("handlers-over-limit/mcs=%d", mcs), "after %s: %d handlers running now, peak %d, on connection 1 with MaxConcurrentStreams=%d", after, run1, s.maxRunning, mcs)
 			}
 			gsRetMu.Lock()
 			gr := gsRet
@@ -349,37 +423,37 @@ func c25Run(t *testing.T, mcs int, evs []string, verbose bool) (res c25Res) {
 			if gr >= 0 && len(s.running) > 0 {
 				fail("handler-running-after-GracefulStop-returned", "after %s: handlers %v running although GracefulStop has returned", after, s.running)
 			}
-			for k := 1; k <= sent; k++ {
+			for _, k := range ks() {
 				if expect[k] {
 					expect[k] = false
 					want := strconv.Itoa(int(c25Code[k]))
 					if trailer[k] != want {
-						fail("rpc-lost-handler-status", "after %s: handler %d returned grpc-status %s for an undisturbed RPC (gs called=%v) but the client saw trailers=%q rst=%v closed=%v", after, k, want, gsCalled, trailer[k], rstSeen[k], peer.Closed())
+						fail("rpc-lost-handler-status", "after %s: handler %d returned grpc-status %s for an undisturbed RPC (gs called=%v) but the client saw trailers=%q rst=%v closed=%v", after, k, want, gsCalled, trailer[k], rstSeen[k], connGone(k))
 					}
 				}
 			}
-			if stopCalled {
+			if stopEff {
 				for _, k := range s.running {
 					if !s.cancelSeen[k] {
 						fail("Stop-did-not-cancel-handler-context", "after %s: handler %d is running and its context is not cancelled although Stop was called", after, k)
 					}
 				}
-				for k := 1; k <= sent; k++ {
-					if !finished(k) && !cancelled[k] && !clientClosed && !peer.Closed() {
+				for _, k := range ks() {
+					if !finished(k) && !cancelled[k] && !connGone(k) {
 						fail("Stop-unfinished-rpc-without-outcome", "after %s: RPC %d is unfinished after Stop but the client saw neither RST_STREAM, trailers nor a closed connection", after, k)
 					}
 				}
 			}
 		}
 		disturbAll := func() {
-			for k := 1; k <= sent; k++ {
+			for _, k := range ks() {
 				if !finished(k) {
 					disturbed[k] = true
 				}
 			}
 		}
 		release := func(k int) {
-			if !disturbed[k] && !cancelled[k] && !clientClosed && !stopCalled && !peer.Closed() {
+			if !disturbed[k] && !cancelled[k] && !stopCalled && !connGone(k) {
 				expect[k] = true
 			}
 			rc.rel[k] <- c25Code[k]
@@ -400,7 +474,7 @@ func c25Run(t *testing.T, mcs int, evs []string, verbose bool) (res c25Res) {
 			for _, k := range rc.snap().starts {
 				started[k] = true
 			}
-			for k := 1; k <= sent; k++ {
+			for _, k := range ks() {
 				if accepted[k] && !started[k] {
 					return true
 				}
@@ -410,13 +484,13 @@ func c25Run(t *testing.T, mcs int, evs []string, verbose bool) (res c25Res) {
 		apply := func(e string) bool {
 			switch {
 			case e == "arrive":
-				if sent >= c25MaxK || clientClosed || peer.Closed() {
+				if sent >= maxArr || sent >= c25MaxK || clientClosed || peer.Closed() {
 					return false
 				}
 				sent++
 				k := sent
 				id := uint32(2*k - 1)
-				sentAfterGS[k], sentAfterSt[k] = gsCalled, stopCalled
+				sentAfterGS[k], sentAfterSt[k] = gsEff, stopEff
 				accepted[k] = !gsCalled && !stopCalled && (mcs == 0 || len(open) < mcs)
 				open[id] = true
 				path := "/s/st"
@@ -451,6 +525,9 @@ func c25Run(t *testing.T, mcs int, evs []string, verbose bool) (res c25Res) {
 					rc.closeLinger() // see the note on Server.mu in claims.json
 				}
 				gsCalled = true
+				if !midHS() {
+					gsEff = true
+				}
 				go func() {
 					srv.GracefulStop()
 					n := rc.nRunning()
@@ -466,6 +543,9 @@ func c25Run(t *testing.T, mcs int, evs []string, verbose bool) (res c25Res) {
 					rc.closeLinger()
 				}
 				stopCalled = true
+				if !midHS() {
+					stopEff = true
+				}
 				disturbAll()
 				go func() {
 					srv.Stop()
@@ -481,6 +561,35 @@ func c25Run(t *testing.T, mcs int, evs []string, verbose bool) (res c25Res) {
 				disturbAll()
 				open = map[uint32]bool{}
 				peer.Close()
+			case e == "dial2":
+				if dialed2 {
+					return false
+				}
+				c, err := lis.Dial()
+				if err != nil {
+					return false // the listener is closed (gs/stop was called)
+				}
+				conn2, dialed2 = c, true
+			case e == "preface2":
+				if !dialed2 || prefaced2 {
+					return false
+				}
+				prefaced2 = true
+				peer2 = wire.NewClientPeer(conn2)
+				peer2.AutoAckSettings, peer2.AutoAckPing = true, true
+				peer2.WriteSettings()
+				// the handshake the server was waiting for is resolved
+				gsEff, stopEff = gsCalled, stopCalled
+			case e == "arrive2":
+				if peer2 == nil || sent4 || peer2.Closed() {
+					return false
+				}
+				sent4 = true
+				sentAfterGS[4], sentAfterSt[4] = gsEff, stopEff
+				accepted[4] = !gsCalled && !stopCalled
+				peer2.WriteHeaders(1, [][2]string{{":method", "POST"}, {":scheme", "http"}, {":path", "/s/st"}, {":authority", "a.test"},
+					{"content-type", "application/grpc"}, {"te", "trailers"}, {"x-req", "4"}}, false)
+				peer2.WriteData(1, true, wire.GrpcMsg(false, []byte("x")))
 			default:
 				res.engine = "unknown event " + e
 				return false
@@ -493,7 +602,7 @@ func c25Run(t *testing.T, mcs int, evs []string, verbose bool) (res c25Res) {
 			gsRetMu.Lock()
 			gr, sr := gsRet, stopRet
 			gsRetMu.Unlock()
-			return fmt.Sprintf("sent=%d running=%v open=%v trailers=%v rst=%v gs=%v/ret=%d stop=%v/ret=%v closed(client=%v,peer=%v)", sent, s.running, len(open), trailer[1:], rstSeen[1:], gsCalled, gr, stopCalled, sr, clientClosed, peer.Closed())
+			return fmt.Sprintf("sent=%d/%v running=%v open=%v trailers=%v rst=%v gs=%v/eff=%v/ret=%d stop=%v/eff=%v/ret=%v closed(client=%v,peer=%v) conn2(dialed=%v,prefaced=%v,closed=%v)", sent, sent4, s.running, len(open), trailer[1:], rstSeen[1:], gsCalled, gsEff, gr, stopCalled, stopEff, sr, clientClosed, peer.Closed(), dialed2, prefaced2, peer2 != nil && peer2.Closed())
 		}
 
 		for i, e := range evs {
@@ -514,13 +623,13 @@ func c25Run(t *testing.T, mcs int, evs []string, verbose bool) (res c25Res) {
 
 		// ---- end of history: let everything finish, then the eventual obligations
 		rc.closeLinger()
-		for round := 0; round < 2*c25MaxK+2; round++ {
+		for round := 0; round < 2*c25NK+2; round++ {
 			run := rc.snap().running
 			if len(run) == 0 {
 				break
 			}
 			for _, k := range run {
-				if k >= 1 && k <= c25MaxK && len(rc.rel[k]) == 0 {
+				if k >= 1 && k <= c25NK && len(rc.rel[k]) == 0 {
 					release(k)
 				}
 			}
@@ -534,13 +643,27 @@ func c25Run(t *testing.T, mcs int, evs []string, verbose bool) (res c25Res) {
 		synctest.Wait()
 		settle()
 		check("drain")
+		if midHS() {
+			// a connection is still mid-handshake: the server gives up on it after
+			// ConnectionTimeout; only then does a pending Stop/GracefulStop go on
+			time.Sleep(c25HandshakeTimeout + 5*time.Second)
+			hsTimedOut = true
+			gsEff, stopEff = gsCalled, stopCalled
+			synctest.Wait()
+			settle()
+			check("handshake-timeout")
+			time.Sleep(2 * time.Second)
+			synctest.Wait()
+			settle()
+			check("handshake-timeout")
+		}
 		s := rc.snap()
 		if len(s.running) != 0 {
 			fail("handler-never-returns", "handlers %v still running after every handler was released", s.running)
 		}
-		for k := 1; k <= sent; k++ {
+		for _, k := range ks() {
 			// (a connection closed by the server is only expected after a GracefulStop, once everything finished)
-			if accepted[k] && !disturbed[k] && !cancelled[k] && !clientClosed && !stopCalled && (!peer.Closed() || gsCalled) {
+			if accepted[k] && !disturbed[k] && !cancelled[k] && !(k != 4 && clientClosed) && !stopCalled && (!connGone(k) || gsCalled) {
 				want := strconv.Itoa(int(c25Code[k]))
 				if trailer[k] != want {
 					fail("accepted-rpc-not-completed", "RPC %d was sent before GracefulStop/Stop below the stream limit and stayed undisturbed, but the client saw trailers=%q rst=%v (want grpc-status %s); handler returned: %q", k, trailer[k], rstSeen[k], want, s.returned[k])
@@ -553,9 +676,15 @@ func c25Run(t *testing.T, mcs int, evs []string, verbose bool) (res c25Res) {
 		if gsCalled && gr < 0 {
 			fail("GracefulStop-never-returns", "GracefulStop has not returned although every handler returned and the client acknowledged the GOAWAY ping")
 		}
+		gsRetMu.Lock()
+		sr := stopRet
+		gsRetMu.Unlock()
+		if stopCalled && !sr {
+			fail("Stop-never-returns", "Stop has not returned although every handler returned and no connection is left in its handshake")
+		}
 		// outcome class of this history (vacuity statistics)
 		var cls []string
-		for k := 1; k <= sent; k++ {
+		for _, k := range ks() {
 			c := "-"
 			switch {
 			case trailer[k] != "":
@@ -564,7 +693,7 @@ func c25Run(t *testing.T, mcs int, evs []string, verbose bool) (res c25Res) {
 				c = "R"
 			case cancelled[k]:
 				c = "c"
-			case peer.Closed() || clientClosed:
+			case connGone(k):
 				c = "x"
 			}
 			if s.returned[k] == "" {
@@ -572,8 +701,12 @@ func c25Run(t *testing.T, mcs int, evs []string, verbose bool) (res c25Res) {
 			}
 			cls = append(cls, c)
 		}
-		res.obs = append(res.obs, fmt.Sprintf("gs=%v stop=%v rpcs=%s", gsCalled, stopCalled, strings.Join(cls, ",")))
-		res.nontriv = (gsCalled || stopCalled) && sent > 0
+		c2 := ""
+		if dialed2 {
+			c2 = fmt.Sprintf(" conn2(prefaced=%v,rpc=%v)", prefaced2, sent4)
+		}
+		res.obs = append(res.obs, fmt.Sprintf("gs=%v stop=%v rpcs=%s%s", gsCalled, stopCalled, strings.Join(cls, ","), c2))
+		res.nontriv = (gsCalled || stopCalled) && (sent > 0 || dialed2)
 
 		stopped := make(chan struct{})
 		go func() { srv.Stop(); close(stopped) }()
@@ -584,6 +717,11 @@ func c25Run(t *testing.T, mcs int, evs []string, verbose bool) (res c25Res) {
 			fail("final-stop-hangs", "Server.Stop did not return at quiescence at the end of the history")
 		}
 		peer.Close()
+		if peer2 != nil {
+			peer2.Close()
+		} else if conn2 != nil {
+			conn2.Close()
+		}
 		synctest.Wait()
 		select {
 		case <-served:
@@ -644,15 +782,35 @@ func (c *c25Crash) pending(mcs int, evs []string) {
 
 // c25StaticBad returns the index of the first event that is inapplicable
 // whatever the server does (saves a bubble), or -1.
-func c25StaticBad(seq []int) int {
+func c25StaticBad(events []string, maxArr int, seq []int) int {
 	sent := 0
-	var gs, stop, closed bool
-	var canc, ret [c25MaxK + 1]bool
+	var gs, stop, closed, dial2, pref2, arr2 bool
+	var canc, ret [c25NK + 1]bool
 	for i, x := range seq {
-		e := c25Events[x]
+		e := events[x]
 		switch {
+		case e == "dial2":
+			if dial2 || gs || stop {
+				return i
+			}
+			dial2 = true
+		case e == "preface2":
+			if !dial2 || pref2 {
+				return i
+			}
+			pref2 = true
+		case e == "arrive2":
+			if !pref2 || arr2 {
+				return i
+			}
+			arr2 = true
+		case e == "ret4":
+			if !arr2 || ret[4] {
+				return i
+			}
+			ret[4] = true
 		case e == "arrive":
-			if sent >= c25MaxK || closed {
+			if sent >= maxArr || closed {
 				return i
 			}
 			sent++
@@ -693,7 +851,7 @@ func TestVerif_C25_ServerStop(t *testing.T) {
 	defer debug.SetGCPercent(debug.SetGCPercent(800))
 	r := vk.Start(t, "c25_serverstop", "exploration", c25P)
 	defer r.Finish()
-	r.Rule(c25P, "every sequence of length 1..D over {arrive (next of <=3 RPCs: HEADERS+DATA+END_STREAM; RPC 2 unary, 1 and 3 streaming), ret1..3 (handler k returns OK/NotFound/OK), cancel1..3 (client RST_STREAM), gs (GracefulStop on its own goroutine), stop (Stop on its own goroutine), close (client closes the connection)} in which every event is applicable (handler k running for ret k; RPC k sent and unfinished for cancel k; gs/stop/close once), for MaxConcurrentStreams 1, 2 and unlimited; one bubble per history on a real grpc.Server, run to quiescence after every event, then all handlers are released and the eventual obligations checked. Non-trivial: the history calls GracefulStop or Stop with at least one RPC sent; counted once per distinct history.")
+	r.Rule(c25P, "every sequence of length 1..D over {arrive (next of <=3 RPCs: HEADERS+DATA+END_STREAM; RPC 2 unary, 1 and 3 streaming), ret1..3 (handler k returns OK/NotFound/OK), cancel1..3 (client RST_STREAM), gs (GracefulStop on its own goroutine), stop (Stop on its own goroutine), close (client closes the connection)} in which every event is applicable (handler k running for ret k; RPC k sent and unfinished for cancel k; gs/stop/close once), for MaxConcurrentStreams 1, 2 and unlimited; second family (two connections, MaxConcurrentStreams 1 and unlimited): every applicable sequence of length 1..D2 over {arrive (one RPC on connection 1), ret1, cancel1, gs, stop, close, dial2 (a second connection is accepted by the listener, the client sends nothing yet), preface2 (its client preface+SETTINGS), arrive2 (RPC 4 on it), ret4}, so that gs/stop can fall between dial2 and preface2; one bubble per history on a real grpc.Server, run to quiescence after every event, then all handlers are released and the eventual obligations checked. Non-trivial: the history calls GracefulStop or Stop with at least one RPC sent; counted once per distinct history.")
 	r.Assume(c25P, "testing/synctest quiescence detection; the raw client acknowledges SETTINGS and the GOAWAY PING at once, so 'after GracefulStop was called' means after the quiescence that follows the call; handlers are the explorer's (block until released, linger after cancellation)")
 	r.Assume(c25P, "when both GracefulStop and Stop have been called the handlers stop lingering after cancellation (Server.stop holds Server.mu across handlersWG.Wait, so the second call blocks on a mutex, which a synctest bubble cannot wait out)")
 
@@ -703,7 +861,7 @@ func TestVerif_C25_ServerStop(t *testing.T) {
 			r.EngineError("replay: %v", err)
 			return
 		}
-		res := c25Run(t, rp.MCS, rp.Events, true)
+		res := c25Run(t, rp.MCS, c25MaxK, rp.Events, true)
 		fmt.Printf("[c25 replay] %s\n  %s\n  abortAt=%d obs=%v\n  server frames: %s\n", c25HistString(rp.MCS, rp.Events), strings.Join(res.trace, "\n  "), res.abortAt, res.obs, res.log)
 		for _, f := range res.fails {
 			r.Violation(c25P, f.Key, f.Desc, rp)
@@ -721,99 +879,111 @@ func TestVerif_C25_ServerStop(t *testing.T) {
 		dump, _ = os.Create(fmt.Sprintf("%s.%d", p, s))
 		defer dump.Close()
 	}
-	D := r.Pick(7, 12)
-	r.Set(c25P, "depth_bound", D)
-	r.Set(c25P, "max_alphabet", len(c25Events))
-	nE := len(c25Events)
+	type scenario struct {
+		name   string
+		events []string
+		maxArr int // RPCs on connection 1
+		mcs    []int
+		depth  int
+	}
+	scns := []scenario{
+		{"one-connection", c25Events, c25MaxK, []int{1, 2, 0}, r.Pick(7, 12)},
+		{"two-connections", c25Events2, 1, []int{1, 0}, r.Pick(7, 10)},
+	}
 	var nEval, nNontriv, nStatic, nDyn int64
-	sampled := 0
 	capped := false
-	for _, mcs := range []int{1, 2, 0} {
-		for L := 1; L <= D; L++ {
-			seq := make([]int, L)
-			// advance the odometer at position p; false when exhausted
-			adv := func(p int) bool {
-				for i := p + 1; i < L; i++ {
-					seq[i] = 0
-				}
-				for p >= 0 {
-					seq[p]++
-					if seq[p] < nE {
-						return true
+	for si, sc := range scns {
+		r.Set(c25P, sc.name+"_depth_bound", sc.depth)
+		r.Set(c25P, sc.name+"_max_alphabet", len(sc.events))
+		D, nE, events := sc.depth, len(sc.events), sc.events
+		sampled := 0
+		for _, mcs := range sc.mcs {
+			for L := 1; L <= D; L++ {
+				seq := make([]int, L)
+				// advance the odometer at position p; false when exhausted
+				adv := func(p int) bool {
+					for i := p + 1; i < L; i++ {
+						seq[i] = 0
 					}
-					seq[p] = 0
-					p--
-				}
-				return false
-			}
-			pl := L // shard on the first min(L,3) events
-			if pl > 3 {
-				pl = 3
-			}
-			for more := true; more; {
-				if !capped && r.OverBudget() {
-					capped = true
-					r.Cap(c25P, "soft time budget reached before the enumeration finished")
-				}
-				if capped {
-					break
-				}
-				if b := c25StaticBad(seq); b >= 0 {
-					nStatic++
-					more = adv(b)
-					continue
-				}
-				pi := 0
-				for i := 0; i < pl; i++ {
-					pi = pi*nE + seq[i]
-				}
-				if !r.Mine(pi*7 + L + mcs) {
-					more = adv(pl - 1)
-					continue
-				}
-				evs := make([]string, L)
-				for i, x := range seq {
-					evs[i] = c25Events[x]
-				}
-				crash.pending(mcs, evs)
-				res := c25Run(t, mcs, evs, false)
-				if res.engine != "" {
-					r.EngineError("%s: %s", c25HistString(mcs, evs), res.engine)
-				}
-				for _, f := range res.fails {
-					hs := c25HistString(mcs, evs)
-					v := vk.Violation{Property: c25P, Key: f.Key, Desc: f.Desc + " | history: " + hs, Replay: c25Replay{MCS: mcs, Events: evs}}
-					dup := false
-					for _, p := range crash.prev {
-						if p.Key == v.Key {
-							dup = true
+					for p >= 0 {
+						seq[p]++
+						if seq[p] < nE {
+							return true
 						}
+						seq[p] = 0
+						p--
 					}
-					if !dup && len(crash.prev) < 20 {
-						crash.prev = append(crash.prev, v)
+					return false
+				}
+				pl := L // shard on the first min(L,3) events
+				if pl > 3 {
+					pl = 3
+				}
+				for more := true; more; {
+					if !capped && r.OverBudget() {
+						capped = true
+						r.Cap(c25P, "soft time budget reached before the enumeration finished")
 					}
-					r.Violation(c25P, v.Key, v.Desc, v.Replay)
+					if capped {
+						break
+					}
+					if b := c25StaticBad(events, sc.maxArr, seq); b >= 0 {
+						nStatic++
+						more = adv(b)
+						continue
+					}
+					pi := 0
+					for i := 0; i < pl; i++ {
+						pi = pi*nE + seq[i]
+					}
+					if !r.Mine(pi*7 + L + mcs + 3*si) {
+						more = adv(pl - 1)
+						continue
+					}
+					evs := make([]string, L)
+					for i, x := range seq {
+						evs[i] = events[x]
+					}
+					crash.pending(mcs, evs)
+					res := c25Run(t, mcs, sc.maxArr, evs, false)
+					if res.engine != "" {
+						r.EngineError("%s: %s", c25HistString(mcs, evs), res.engine)
+					}
+					for _, f := range res.fails {
+						hs := c25HistString(mcs, evs)
+						v := vk.Violation{Property: c25P, Key: f.Key, Desc: f.Desc + " | history: " + hs, Replay: c25Replay{MCS: mcs, Events: evs}}
+						dup := false
+						for _, p := range crash.prev {
+							if p.Key == v.Key {
+								dup = true
+							}
+						}
+						if !dup && len(crash.prev) < 20 {
+							crash.prev = append(crash.prev, v)
+						}
+						r.Violation(c25P, v.Key, v.Desc, v.Replay)
+					}
+					if res.abortAt >= 0 {
+						nDyn++
+						more = adv(res.abortAt)
+						continue
+					}
+					nEval++
+					if dump != nil {
+						fmt.Fprintf(dump, "%s | %v\n", c25HistString(mcs, evs), res.obs)
+					}
+					if res.nontriv {
+						nNontriv++
+					}
+					for _, o := range res.obs {
+						r.Outcome(c25P, o)
+					}
+					if sampled < 2 && res.nontriv && L == D {
+						sampled++
+						r.Sample(c25P, map[string]any{"history": c25HistString(mcs, evs), "outcome": res.obs})
+					}
+					more = adv(L - 1)
 				}
-				if res.abortAt >= 0 {
-					nDyn++
-					more = adv(res.abortAt)
-					continue
-				}
-				nEval++
-				if dump != nil {
-					fmt.Fprintf(dump, "%s | %v\n", c25HistString(mcs, evs), res.obs)
-				}
-				if res.nontriv {
-					nNontriv++
-				}
-				for _, o := range res.obs {
-					r.Outcome(c25P, o)
-				}
-				if sampled < 2 && res.nontriv && L == D {
-					sampled++
-					r.Sample(c25P, map[string]any{"history": c25HistString(mcs, evs), "outcome": res.obs})
-				}
-				more = adv(L - 1)
 			}
 		}
 	}
